@@ -1,3 +1,4 @@
 import BppProofs.Lemmas.Range
 import BppProofs.Lemmas.ScalarReal
 import BppProofs.Props.C20
+import BppProofs.Props.C20Measure
